@@ -179,3 +179,67 @@ Proof.
   exact (proj2 (DOP853Cert.rows_close_spec _ _ _ DOP853Cert.rowsums_f64)).
 Qed.
 Print Assumptions C02_dop853_rowsums.
+
+(* ---------- Radau IIA: order 5, not 6; stability function = (2,3) Pade approximant ----------
+   The code stores T, TI and the eigenvalues U1, ALPH +- i BETA of the inverse Radau IIA matrix (16-digit decimals)
+   and iterates on the transformed stages.  model/RadauEff.v computes the Runge-Kutta matrix
+   Aeff = T * diag(U1, [[ALPH,-BETA],[BETA,ALPH]])^-1 * TI  that a fixed point of that iteration satisfies
+   (Z = h Aeff F(Z)), with weights beff = its last row (ynew = y + Z3, stiffly accurate).  Residuals as for DOP853:
+   M / D^size(t) with |M| * 1e14 <= gamma(t) D^size(t). *)
+Require Import IVP.model.RadauEff IVP.proofs.RadauEffCert IVP.proofs.RadauEffFacts.
+
+Theorem C02_radau_order5 :
+  forall t, (size t <= 5)%nat -> exists M : Z,
+    Z2Qc (gamma t) * qdot (RE.beff lit_q) (Phi QcK (RE.Aeff lit_q) 3 t) - 1
+      = (/ Z2Qc (RadauCert.D lit_q)) ^ size t * Z2Qc M /\
+    (Z.abs M * 10^14 <= gamma t * 1 * (RadauCert.D lit_q) ^ Z.of_nat (size t))%Z.
+Proof. exact RadauOrder.order5_sound. Qed.
+Print Assumptions C02_radau_order5.
+
+Theorem C02_radau_order5_f64 :
+  forall t, (size t <= 5)%nat -> exists M : Z,
+    Z2Qc (gamma t) * qdot (RE.beff f64_q) (Phi QcK (RE.Aeff f64_q) 3 t) - 1
+      = (/ Z2Qc (RadauCert.D f64_q)) ^ size t * Z2Qc M /\
+    (Z.abs M * 10^14 <= gamma t * 1 * (RadauCert.D f64_q) ^ Z.of_nat (size t))%Z.
+Proof. exact RadauOrder.order5_f64_sound. Qed.
+Print Assumptions C02_radau_order5_f64.
+
+Theorem C02_radau_not_order6 :
+  size RadauCert.t6 = 6%nat /\
+  Z2Qc (gamma RadauCert.t6) * qdot (RE.beff lit_q) (Phi QcK (RE.Aeff lit_q) 3 RadauCert.t6) - 1
+    = (/ Z2Qc (RadauCert.D lit_q)) ^ size RadauCert.t6 * Z2Qc RadauCert.M6 /\
+  (10^8 <= Z.abs RadauCert.M6 * 10^12 / (RadauCert.D lit_q) ^ 6)%Z.
+Proof.
+  split; [exact RadauCert.size_t6|]. split; [exact RadauOrder.resid6_eq|].
+  apply Z.leb_le. exact RadauCert.M6_val.
+Qed.
+Print Assumptions C02_radau_not_order6.
+
+(* the abscissae C1, C2, 1 at which the code evaluates f are the row sums of Aeff (to 1e-15) *)
+Theorem C02_radau_nodes :
+  forall i, (i < 3)%nat ->
+    qabs (nth i (map (RE.r lit_q) [0; 1; 2]%nat) 0 - nth i (RE.ceff lit_q) 0) <= Q2Qc (1 # 10^15).
+Proof. exact (proj2 (DOP853Cert.rows_close_spec _ _ _ RadauCert.nodes)). Qed.
+Print Assumptions C02_radau_nodes.
+
+(* "one Radau step on y' = lambda y reproduces the (2,3) Pade approximant of exp(h lambda)":
+   for every real z = h*lambda at which Q(z) <> 0, the stage equations Z = z Aeff (1 + Z) have exactly one solution and
+   it gives ynew/y = 1 + Z3 = P(z)/Q(z), where P and Q have the coefficients computed in RE.Ppoly / RE.Qpoly, which are
+   within 1e-15 of (1, 2/5, 1/20, 0) and (1, -3/5, 3/20, -1/60). *)
+Require Import Reals.
+Theorem C02_radau_pade :
+  (forall z Z0 Z1 Z2 : R, RadauReal.QzR z <> 0%R -> RadauReal.stages z Z0 Z1 Z2 ->
+     (1 + Z2 = RadauReal.PzR z / RadauReal.QzR z)%R) /\
+  (forall z : R, RadauReal.PzR z = (1 + QcR (RadauCert.p 1) * z + QcR (RadauCert.p 2) * z * z + QcR (RadauCert.p 3) * z * z * z)%R) /\
+  (forall z : R, RadauReal.QzR z = (1 + QcR (RadauCert.qq 1) * z + QcR (RadauCert.qq 2) * z * z + QcR (RadauCert.qq 3) * z * z * z)%R) /\
+  (forall i, (i < 4)%nat ->
+     (qabs (nth i (RE.Ppoly lit_q) 0 - nth i RadauCert.pade_P 0) <= Q2Qc (1 # 10^15))%Qc /\
+     (qabs (nth i (RE.Qpoly lit_q) 0 - nth i RadauCert.pade_Q 0) <= Q2Qc (1 # 10^15))%Qc).
+Proof.
+  split; [|split; [exact RadauReal.PzR_coefs|split; [exact RadauReal.QzR_coefs|]]].
+  - intros z Z0 Z1 Z2 HQ H. exact (Stab3.stability_function _ _ _ _ _ _ _ _ _ _ HQ _ _ _ H).
+  - intros i Hi. split.
+    + exact (proj2 (DOP853Cert.rows_close_spec _ _ _ RadauCert.pade_P_close) i Hi).
+    + exact (proj2 (DOP853Cert.rows_close_spec _ _ _ RadauCert.pade_Q_close) i Hi).
+Qed.
+Print Assumptions C02_radau_pade.
